@@ -1,0 +1,111 @@
+//go:build verif
+
+// Contracts for the govc deductive verifier (see /verif/DESIGN.md).
+//
+// This file is compiled only with the build tag "verif" and contains no
+// executable code: every line below the package clause is a structured
+// comment starting with "//@". The verifier reads them, generates proof
+// obligations from the SSA form of the real functions in this package and
+// discharges them with SMT solvers.
+
+package trzsz
+
+// ===========================================================================
+// C04  escape coding (escape.go)
+// ===========================================================================
+
+//@ # Position of the k-th payload byte inside its escaped form. esc maps a byte
+//@ # value to the table's code pointer (0 = not escaped).
+//@ rec encPos(esc map[int]int, x map[int]int, k int) int
+//@ axiom encPos0: forall esc map[int]int, x map[int]int :: encPos(esc, x, 0) == 0
+//@ # The recursive equation is only instantiated where a contract asks for it by
+//@ # mentioning encUnfold(esc, x, k) (always true): an explicit unfolding hint, so
+//@ # that the solver cannot loop on the definition.
+//@ rec encUnfold(esc map[int]int, x map[int]int, k int) bool
+//@ axiom encPosStep: forall esc map[int]int, x map[int]int, k int {encUnfold(esc, x, k)} :: \
+//@     encUnfold(esc, x, k) && \
+//@     (0 <= k ==> encPos(esc, x, k+1) == encPos(esc, x, k) + ite(esc[x[k]] == 0, 1, 2))
+
+//@ # Well-formed escape table: 256 entries each way, the leader itself is
+//@ # escaped, unescape inverts escape, and no code byte is itself protected.
+//@ pure tableWF(t *escapeTable) bool = \
+//@     len(t.escapeCodes) == 256 && len(t.unescapeCodes) == 256 && \
+//@     t.escapeCodes[238] != nil && \
+//@     (forall b int {*t.escapeCodes[b]} :: 0 <= b && b < 256 && t.escapeCodes[b] != nil ==> \
+//@         0 <= *t.escapeCodes[b] && *t.escapeCodes[b] < 256 && \
+//@         (*t.escapeCodes[b] == 238 || t.escapeCodes[*t.escapeCodes[b]] == nil) && \
+//@         t.unescapeCodes[*t.escapeCodes[b]] != nil && *t.unescapeCodes[*t.escapeCodes[b]] == b)
+
+//@ # y[0..m) agrees with the escaped form of x[0..n) wherever it is defined.
+//@ pure encAgrees(t *escapeTable, x map[int]int, n int, y map[int]int, m int) bool = \
+//@     forall k int {encPos(view(t.escapeCodes), x, k)} :: 0 <= k && k < n ==> \
+//@        (t.escapeCodes[x[k]] == nil ==> \
+//@            (encPos(view(t.escapeCodes), x, k) < m ==> y[encPos(view(t.escapeCodes), x, k)] == x[k])) && \
+//@        (t.escapeCodes[x[k]] != nil ==> \
+//@            (encPos(view(t.escapeCodes), x, k) < m ==> y[encPos(view(t.escapeCodes), x, k)] == 238) && \
+//@            (encPos(view(t.escapeCodes), x, k) + 1 < m ==> y[encPos(view(t.escapeCodes), x, k) + 1] == *t.escapeCodes[x[k]]))
+
+//@ # the escaped form of each of the first n payload bytes ends at or before m
+//@ pure encFits(t *escapeTable, x map[int]int, n int, m int) bool = \
+//@     forall k int {encPos(view(t.escapeCodes), x, k)} :: 0 <= k && k < n ==> \
+//@        0 <= encPos(view(t.escapeCodes), x, k) && \
+//@        encPos(view(t.escapeCodes), x, k) + ite(t.escapeCodes[x[k]] == nil, 1, 2) <= m
+
+//@ # b is one of the bytes the table promises to keep off the wire
+//@ pure protected(t *escapeTable, b int) bool = b != 238 && t.escapeCodes[b] != nil
+
+//@ func escapeData
+//@   nilable table
+//@   requires table != nil ==> tableWF(table)
+//@   ensures table == nil || table.totalCount == 0 ==> same(r0, data)
+//@   ensures table != nil && table.totalCount != 0 ==> \
+//@       len(r0) == encPos(view(table.escapeCodes), view(data), len(data)) && \
+//@       encFits(table, view(data), len(data), len(r0)) && \
+//@       encAgrees(table, view(data), len(data), view(r0), len(r0))
+//@   ensures table != nil && table.totalCount != 0 ==> \
+//@       (forall j int {r0[j]} :: 0 <= j && j < len(r0) ==> !protected(table, r0[j]))
+//@   ensures len(r0) <= 2*len(data)
+//@   ensures table != nil && table.totalCount != 0 ==> ref(r0) != ref(data) && ref(r0) > old(alloc())
+//@   loop 1
+//@     invariant 0 <= #i && #i <= len(data)
+//@     invariant idx == encPos(view(table.escapeCodes), view(data), #i)
+//@     invariant encUnfold(view(table.escapeCodes), view(data), #i)
+//@     invariant #i <= idx && idx <= 2 * #i
+//@     invariant encFits(table, view(data), #i, idx)
+//@     invariant encAgrees(table, view(data), #i, view(buf), idx)
+//@     invariant forall j int {buf[j]} :: 0 <= j && j < idx ==> !protected(table, buf[j])
+//@ end
+
+//@ # Decoding a prefix cut (anywhere, also between leader and code) of the escaped
+//@ # form of x[0..nx): returns exactly the payload bytes whose codes were complete,
+//@ # never an error, and hands back the unconsumed rest.
+//@ func unescapeData
+//@   nilable table
+//@   ghost x map[int]int, nx int
+//@   requires table != nil ==> tableWF(table)
+//@   requires 0 <= nx
+//@   requires forall k int {x[k]} :: 0 <= k && k < nx ==> 0 <= x[k] && x[k] < 256
+//@   requires table != nil && table.totalCount != 0 ==> \
+//@       len(data) <= encPos(view(table.escapeCodes), x, nx) && \
+//@       encAgrees(table, x, nx, view(data), len(data))
+//@   requires len(dst) > 0 ==> ref(dst) != ref(data)
+//@   ensures err == nil
+//@   ensures table == nil || table.totalCount == 0 ==> same(r0, data) && r1 == nil
+//@   ensures table != nil && table.totalCount != 0 ==> \
+//@       0 <= len(r0) && len(r0) <= nx && \
+//@       (forall j int {r0[j]} :: 0 <= j && j < len(r0) ==> r0[j] == x[j])
+//@   ensures table != nil && table.totalCount != 0 ==> \
+//@       len(r1) == len(data) - encPos(view(table.escapeCodes), x, len(r0)) && \
+//@       (len(r1) > 0 ==> ref(r1) == ref(data) && off(r1) == off(data) + encPos(view(table.escapeCodes), x, len(r0)))
+//@   ensures table != nil && table.totalCount != 0 && len(dst) > 0 ==> ref(r0) == ref(dst) && off(r0) == off(dst)
+//@   ensures table != nil && table.totalCount != 0 && len(data) > 0 && \
+//@       (len(data) >= 2 || data[0] != 238) ==> len(r0) > 0
+//@   loop 1
+//@     invariant 0 <= i && i <= size && 0 <= idx && idx <= nx
+//@     invariant i == encPos(view(table.escapeCodes), x, idx)
+//@     invariant encUnfold(view(table.escapeCodes), x, idx)
+//@     invariant idx <= len(buf) && (size > 0 ==> idx < len(buf))
+//@     invariant encAgrees(table, x, nx, view(data), size)
+//@     invariant forall j int {buf[j]} :: 0 <= j && j < idx ==> buf[j] == x[j]
+//@     invariant i > 0 ==> idx > 0
+//@ end
